@@ -62,9 +62,15 @@ TABLE = ((0.2, 0.25, 3.0),
 # small helpers
 
 def _near(a, b):
-    if math.isinf(a) or math.isinf(b):
-        return False
-    return abs(a - b) <= REL * max(abs(a), abs(b))
+    """a and b finite; True when they differ by at most REL relative."""
+    d = a - b
+    if d < 0.0:
+        d = -d
+    if a < 0.0:
+        a = -a
+    if b < 0.0:
+        b = -b
+    return d <= REL * (a if a > b else b)
 
 
 def lt(a, b):
@@ -206,7 +212,8 @@ def table_rows(f0):
     lower = 0.0
     for hi, eps, theta in TABLE:
         exact = lower <= f0 < hi
-        fuzzy = (f0 != hi and _near(f0, hi)) or (lower != 0.0 and f0 != lower and _near(f0, lower))
+        fuzzy = ((not math.isinf(hi) and f0 != hi and _near(f0, hi))
+                 or (lower != 0.0 and f0 != lower and _near(f0, lower)))
         if exact or fuzzy:
             rows.append((eps * f0, theta))
         lower = hi
